@@ -236,9 +236,24 @@ func (m *MockTableHandler) All() []interface{} {
 	data := m.db.data[m.name]
 	result := make([]interface{}, len(data))
 	for i, v := range data {
-		result[i] = v
+		result[i] = cloneRecord(v)
 	}
 	return result
+}
+
+// cloneRecord copies a stored record. Handlers hand records to request code
+// that may assign to their fields; returning (or keeping) the stored map itself
+// let two requests write the same map outside the lock, which is a fatal
+// "concurrent map writes" error.
+func cloneRecord(record map[string]interface{}) map[string]interface{} {
+	if record == nil {
+		return nil
+	}
+	out := make(map[string]interface{}, len(record))
+	for k, v := range record {
+		out[k] = v
+	}
+	return out
 }
 
 // sameID reports whether a stored record id and a lookup id identify the same
@@ -275,7 +290,7 @@ func (m *MockTableHandler) Get(id interface{}) interface{} {
 
 	for _, record := range m.db.data[m.name] {
 		if sameID(record["id"], id) {
-			return record
+			return cloneRecord(record)
 		}
 	}
 	return nil
@@ -286,13 +301,19 @@ func (m *MockTableHandler) Create(data map[string]interface{}) map[string]interf
 	m.db.mu.Lock()
 	defer m.db.mu.Unlock()
 
-	// Auto-generate ID if not provided
-	if _, ok := data["id"]; !ok {
-		data["id"] = int64(len(m.db.data[m.name]) + 1)
+	// Store a copy: the caller keeps using (and may modify) its own map
+	record := cloneRecord(data)
+	if record == nil {
+		record = make(map[string]interface{})
 	}
 
-	m.db.data[m.name] = append(m.db.data[m.name], data)
-	return data
+	// Auto-generate ID if not provided
+	if _, ok := record["id"]; !ok {
+		record["id"] = int64(len(m.db.data[m.name]) + 1)
+	}
+
+	m.db.data[m.name] = append(m.db.data[m.name], record)
+	return cloneRecord(record)
 }
 
 // Update updates a record by ID
@@ -307,7 +328,7 @@ func (m *MockTableHandler) Update(id interface{}, data map[string]interface{}) m
 				record[k] = v
 			}
 			m.db.data[m.name][i] = record
-			return record
+			return cloneRecord(record)
 		}
 	}
 	return nil
@@ -363,7 +384,7 @@ func (m *MockTableHandler) Filter(column string, value interface{}) []interface{
 	result := make([]interface{}, 0)
 	for _, record := range m.db.data[m.name] {
 		if looseEqual(record[column], value) {
-			result = append(result, record)
+			result = append(result, cloneRecord(record))
 		}
 	}
 	return result
